@@ -258,4 +258,9 @@ def run(ctx: Ctx):
     c.check_sets()
     c.check_symmetry()
     c.check_body()
+    # 0-/1-dimensional geometries get their area from buffer_geometry (anchored file geometry/operations.py): its rules
+    # (C11) are necessary conditions of the affinity of such geometries
+    from . import c11
+    with ctx.delegated("C11/"):
+        c11.run_affinity_subset(ctx)
     return EXPLANATION, ASSUMPTIONS
